@@ -5,7 +5,8 @@
    `c_guard cfg = true` = the reactor's close() records ConnectionShutdown while the handshake is unfinished
    (asyncore always; asyncio / twisted / eventlet / gevent since fix C47-1). *)
 From Coq Require Import ZArith List Bool Lia ZifyBool.
-From Verif Require Import PyBase HsProtoVersion Handshake C47_proofs C47_main.
+From Verif Require Segment.
+From Verif Require Import PyBase HsProtoVersion Handshake C47_proofs C47_main C47_applied.
 Import ListNotations.
 Local Open Scope Z_scope.
 
@@ -80,6 +81,35 @@ Print Assumptions C47_checksumming_iff_v5.
 Theorem C47_has_cs_is_source : forall v, has_checksumming_support v = has_cs v.
 Proof. intro v. unfold has_checksumming_support, has_cs. lia. Qed.
 Print Assumptions C47_has_cs_is_source.
+
+(* once the server has accepted STARTUP (authentication phase, or reported ready) the NEGOTIATED compression is what the
+   connection applies: compressor = the algorithm staged by SUPPORTED and announced in STARTUP; checksumming exactly on the
+   checksumming versions and then the segment codec compresses iff a compression was negotiated; every AUTH_RESPONSE /
+   CREDENTIALS frame is framed accordingly (frame flag below v5, compressing segment codec from v5) *)
+Theorem C47_negotiated_compression_applied : forall cfg rs, c_guard cfg = true ->
+  let s := fst (run cfg rs) in
+  (authphase s \/ reported_ready s = true ->
+     comp s = pcomp s /\ cksum s = has_cs (c_version cfg) /\ (cksum s = true -> seglz4 s = is_some (pcomp s)))
+  /\ (forall f, In f (snd (run cfg rs)) -> f_kind f = MAuthResponse \/ f_kind f = MCredentials ->
+        f_compressed f = is_some (pcomp s) && negb (has_cs (c_version cfg))
+        /\ f_checksummed f = has_cs (c_version cfg)
+        /\ f_segcomp f = has_cs (c_version cfg) && is_some (pcomp s))
+  /\ (forall a, pcomp s = Some a -> announces (snd (run cfg rs)) a).
+Proof. exact applied_main. Qed.
+Print Assumptions C47_negotiated_compression_applied.
+
+(* reuse: the READY / AUTHENTICATE switch of this model (`enable`) IS the switch model of Model/Segment.v (C06's hstate) *)
+Definition to_hstate (s : state) : Segment.hstate :=
+  Segment.mkHs (is_some (pcomp s)) (is_some (comp s)) (if cksum s then Some (seglz4 s) else None).
+
+Theorem C47_enable_is_segment_switch : forall v s, cksum s = false ->
+  to_hstate (enable v s) = Segment.on_reply (has_cs v) Segment.RReady (to_hstate s)
+  /\ to_hstate (enable v s) = Segment.on_reply (has_cs v) Segment.RAuthenticate (to_hstate s).
+Proof.
+  intros v s Hc. unfold to_hstate, enable, Segment.on_reply, Segment.enable_compression, Segment.enable_checksumming.
+  destruct (has_cs v), (pcomp s), (comp s); cbn; rewrite ?Hc; cbn; auto.
+Qed.
+Print Assumptions C47_enable_is_segment_switch.
 
 (* once the connection is reported, further protocol replies are dropped: the handshake cannot be re-run *)
 Theorem C47_handshake_is_final : forall cfg rs r, connected (fst (run cfg rs)) = true ->
